@@ -18,8 +18,8 @@ func init() {
 		ID: "C09", Section: "3 C09",
 		Technique: "keep-xor-release partition rule on go/ssa (per old element: path disjointness and must-pass of the keep and release sites), publish-before-return path rule, who-may-call census of the release chain, key-format agreement",
 		Meta: core.Meta{
-			Level: "other",
-			Explanation: "Decides for BalanceRR.Update, BalanceGslb.Reload and BalTable.BalTableReload: (a) keep-xor-release — each element taken from the published container is, within one iteration, either carried into the replacement container (the same object, so availability and counters persist) or released, never both and never neither; a kept backend is removed from the pending-config map so it is not created again, a kept balancer is deleted from the old table before the release pass, the release pass releases every remaining old element unconditionally; new elements are created only for names/addresses not matched to an old element; (b) the replacement container is stored into the published field on every path to a success return, under the lock; (c) release chain census: BfeBackend.Close <- BfeBackend.Release <- BackendRR.Release <- {BalanceRR.Update, BalanceRR.Release} <- SubCluster.release <- {BalanceGslb.Reload, BalanceGslb.Release} <- BalTableReload, no other callers; (d) old and new backends are matched by the same addr:port key format on both sides. Not covered: histories (duplicate addresses in one config and what later reloads do with them), the error path of BalanceGslb.Reload after some sub-clusters were released (input rejected earlier by GslbConfLoad; noted).",
+			Level:       "other",
+			Explanation: "Decides for BalanceRR.Update, BalanceGslb.Reload and BalTable.BalTableReload (each with its private helpers and closures; containers, locks and maps are identified by field object and parameter, not by local names): (a) keep-xor-release — each element taken from the published container is, within one iteration, either carried into the replacement container (the same object, so availability and counters persist) or released (directly or by a private helper that always releases its argument), never both and never neither; a kept backend is removed from the pending-config map so it is not created again and is kept only where the lookup hit and MatchAddrPort of that element are established (also through a named boolean), a kept balancer is deleted from the old table before the release pass, the release pass releases every remaining old element unconditionally; new elements are created only for names/addresses not matched to an old element; (b) the replacement container is stored into the published field on every path to a success return, under the lock (held at the store or at every call site of the helper containing it); (c) release chain census: BfeBackend.Close <- BfeBackend.Release <- BackendRR.Release <- {BalanceRR.Update, BalanceRR.Release} <- SubCluster.release <- {BalanceGslb.Reload, BalanceGslb.Release} <- BalTableReload and their private helpers, no other callers; (d) old and new backends are matched by the same addr:port key format on both sides. Not covered: histories (duplicate addresses in one config and what later reloads do with them), the error path of BalanceGslb.Reload after some sub-clusters were released (input rejected earlier by GslbConfLoad; noted); a keep step moved into a helper (append inside a callee) is reported as unresolved.",
 			RuleText:    "obligations = per reload function: each old-element load with its keep and release sites, the publish store, the creation guard; each caller in the release chain; the two key formatters",
 		},
 		Run: runC09,
@@ -33,6 +33,19 @@ func init() {
 			{Name: "table-release-conditional", File: "bfe_balance/bal_table.go", Old: "	for _, remainder := range t.balTable {\n		remainder.Release()\n	}", New: "	for name, remainder := range t.balTable {\n		if _, ok := (*backendConfs.Config)[name]; !ok {\n			remainder.Release()\n		}\n	}", Expect: "release-pass"},
 			{Name: "standby-subcluster-skipped", File: "bfe_balance/bal_gslb/bal_gslb.go", Old: "	for _, subCluster := range bal.subClusters {\n		if backend, ok := clusterBackend[subCluster.Name]; ok {\n			subCluster.update(backend)", New: "	for _, subCluster := range bal.subClusters {\n		if subCluster.weight <= 0 {\n			continue\n		}\n		if backend, ok := clusterBackend[subCluster.Name]; ok {\n			subCluster.update(backend)", Expect: "update-all"},
 			{Name: "extra-release-caller", File: "bfe_balance/bal_gslb/bal_gslb.go", Old: "func (bal *BalanceGslb) BackendReload(clusterBackend cluster_table_conf.ClusterBackend) error {\n	bal.lock.Lock()\n\n	for _, subCluster := range bal.subClusters {\n		if backend, ok := clusterBackend[subCluster.Name]; ok {\n			subCluster.update(backend)\n		}", New: "func (bal *BalanceGslb) BackendReload(clusterBackend cluster_table_conf.ClusterBackend) error {\n	bal.lock.Lock()\n\n	for _, subCluster := range bal.subClusters {\n		if backend, ok := clusterBackend[subCluster.Name]; ok {\n			subCluster.update(backend)\n		} else {\n			subCluster.release()\n		}", Expect: "release-chain"},
+			// behaviour-preserving edits: the verdict must not change
+			{Name: "silent-update-restructured", Silent: true, File: "bfe_balance/bal_slb/bal_rr.go",
+				Old: "	// go through backendsOld, make update and delete\n	for index := 0; index < len(brr.backends); index++ {\n		backendRR := brr.backends[index]\n\n		backendKey := backendRR.backend.GetAddrInfo()\n		bkConf, ok := confMap[backendKey]\n		if ok && backendRR.MatchAddrPort(*bkConf.Addr, *bkConf.Port) {\n			// found existing backend\n			backendRR.UpdateWeight(*bkConf.Weight)\n			backendsNew = append(backendsNew, backendRR)\n			delete(confMap, backendKey)\n		} else {\n			// tell healthcheck to stop\n			backendRR.Release()\n		}\n	}\n",
+				New: "	// tell healthcheck of a removed backend to stop\n	stop := func(removed *BackendRR) {\n		removed.Release()\n	}\n\n	// go through backendsOld, make update and delete\n	for _, old := range brr.backends {\n		key := old.backend.GetAddrInfo()\n		newConf, present := confMap[key]\n		unchanged := present && old.MatchAddrPort(*newConf.Addr, *newConf.Port)\n		if !unchanged {\n			stop(old)\n			continue\n		}\n		// found existing backend\n		delete(confMap, key)\n		old.UpdateWeight(*newConf.Weight)\n		backendsNew = append(backendsNew, old)\n	}\n"},
+			{Name: "silent-table-lookup-inverted", Silent: true, File: "bfe_balance/bal_table.go",
+				Old: "		bal, ok := t.balTable[clusterName]\n		if !ok {\n			// new one balance\n			bal = bal_gslb.NewBalanceGslb(clusterName)\n		} else {\n			delete(t.balTable, clusterName)\n		}",
+				New: "		bal, existed := t.balTable[clusterName]\n		if existed {\n			delete(t.balTable, clusterName)\n		} else {\n			// new one balance\n			bal = bal_gslb.NewBalanceGslb(clusterName)\n		}"},
+			{Name: "silent-backend-reload-renamed-defer", Silent: true, File: "bfe_balance/bal_gslb/bal_gslb.go",
+				Old: "func (bal *BalanceGslb) BackendReload(clusterBackend cluster_table_conf.ClusterBackend) error {\n	bal.lock.Lock()\n\n	for _, subCluster := range bal.subClusters {\n		if backend, ok := clusterBackend[subCluster.Name]; ok {\n			subCluster.update(backend)\n		}\n	}\n\n	bal.lock.Unlock()\n\n	return nil\n}",
+				New: "func (bal *BalanceGslb) BackendReload(table cluster_table_conf.ClusterBackend) error {\n	bal.lock.Lock()\n	defer bal.lock.Unlock()\n\n	for i := 0; i < len(bal.subClusters); i++ {\n		sub := bal.subClusters[i]\n		backends, found := table[sub.Name]\n		if !found {\n			continue\n		}\n		sub.update(backends)\n	}\n\n	return nil\n}"},
+			{Name: "silent-reload-debug-log", Silent: true, File: "bfe_balance/bal_gslb/bal_gslb.go",
+				Old: "			// add sub cluster to subListNew\n			subListNew = append(subListNew, sub)\n		} else {",
+				New: "			// add sub cluster to subListNew\n			subListNew = append(subListNew, sub)\n			log.Logger.Debug(\"keep subcluster %s, weight %d\", sub.Name, weight)\n			if len(subListNew) == 0 {\n				// never here\n				log.Logger.Warn(\"empty sub cluster list after append\")\n			}\n		} else {"},
 		},
 	})
 }
@@ -65,7 +78,7 @@ func appendedElems(call *ssa.Call) []ssa.Value {
 }
 
 // partition checks keep-xor-release for the element values elems of fn.
-func partition(c *core.Ctx, fn *ssa.Function, name string, elems []ssa.Value, keep, release func(in ssa.Instruction, e ssa.Value) bool) {
+func partition(c *core.Ctx, fn *ssa.Function, name string, base int, elems []ssa.Value, keep, release func(in ssa.Instruction, e ssa.Value) bool) {
 	if len(elems) == 0 {
 		c.Check("partition", name+":elements", fn.Pos(), false, "no load of an element of the published container found; the reload no longer iterates the old elements in a form the rule can follow")
 		return
@@ -99,7 +112,7 @@ func partition(c *core.Ctx, fn *ssa.Function, name string, elems []ssa.Value, ke
 				rels = append(rels, in)
 			}
 		}
-		key := fmt.Sprintf("%s:elem#%d", name, i)
+		key := fmt.Sprintf("%s:elem#%d", name, base+i)
 		if len(keeps) == 0 || len(rels) == 0 {
 			c.Check("partition", key, ei.Pos(), false, fmt.Sprintf("old element %s has %d keep site(s) and %d release site(s); both a carry-over and a release branch are required", core.Render(e), len(keeps), len(rels)))
 			continue
@@ -134,161 +147,237 @@ func partition(c *core.Ctx, fn *ssa.Function, name string, elems []ssa.Value, ke
 
 func runC09(c *core.Ctx) {
 	const slb, gslb, tbl, bk = "bfe_balance/bal_slb", "bfe_balance/bal_gslb", "bfe_balance", "bfe_balance/backend"
+	// old elements: loads of an element of the published container (identified by field object)
+	oldElems := func(rg *rRegion, fld *types.Var) map[*ssa.Function][]ssa.Value {
+		out := map[*ssa.Function][]ssa.Value{}
+		rg.instrs(func(in ssa.Instruction) {
+			if u, ok := in.(*ssa.UnOp); ok && u.Op == token.MUL {
+				if ia, ok := u.X.(*ssa.IndexAddr); ok && rFieldLoad(ia.X, fld) != nil {
+					out[in.Parent()] = append(out[in.Parent()], u)
+				}
+			}
+		})
+		return out
+	}
+	// the comma-ok result of a map lookup
+	lookupOK := func(v ssa.Value) *ssa.Lookup {
+		ex, ok := v.(*ssa.Extract)
+		if !ok || ex.Index != 1 {
+			return nil
+		}
+		lk, ok := ex.Tuple.(*ssa.Lookup)
+		if !ok || !lk.CommaOk {
+			return nil
+		}
+		return lk
+	}
 	// ---- BalanceRR.Update -----------------------------------------------------------------------
 	if fn := c.P.Func(slb, "BalanceRR.Update"); fn == nil {
 		c.Missing(slb + ".BalanceRR.Update")
+	} else if fld, ok := c.P.Obj(slb, "BalanceRR.backends").(*types.Var); !ok {
+		c.Missing(slb + ".BalanceRR.backends")
 	} else {
 		c.Analysed(core.FuncKey(fn))
-		var elems []ssa.Value
-		for _, in := range allInstrs(fn) {
-			if u, ok := in.(*ssa.UnOp); ok && u.Op == token.MUL {
-				if ia, ok := u.X.(*ssa.IndexAddr); ok && core.Render(ia.X) == "brr.backends" {
-					elems = append(elems, u)
-				}
-			}
+		rg := rNewRegion(c.P, fn)
+		type kept struct {
+			call *ssa.Call
+			e    ssa.Value
 		}
-		var keepCalls []*ssa.Call
-		partition(c, fn, "BalanceRR.Update", elems,
-			func(in ssa.Instruction, e ssa.Value) bool {
-				call, ok := in.(*ssa.Call)
+		var keeps []kept
+		seenKeep := map[*ssa.Call]bool{}
+		byFn := oldElems(rg, fld)
+		base := 0
+		for _, g := range rg.fns {
+			if len(byFn[g]) == 0 {
+				continue
+			}
+			partition(c, g, "BalanceRR.Update", base, byFn[g],
+				func(in ssa.Instruction, e ssa.Value) bool {
+					call, ok := in.(*ssa.Call)
+					if !ok {
+						return false
+					}
+					for _, a := range appendedElems(call) {
+						if a == e {
+							if !seenKeep[call] {
+								seenKeep[call] = true
+								keeps = append(keeps, kept{call, e})
+							}
+							return true
+						}
+					}
+					return false
+				},
+				func(in ssa.Instruction, e ssa.Value) bool {
+					ci, ok := in.(ssa.CallInstruction)
+					if !ok {
+						return false
+					}
+					if core.CallIs(ci.Common(), slb+".BackendRR.Release") {
+						return ci.Common().Args[0] == e
+					}
+					return rAlwaysOnParam(rg, ci, e, slb+".BackendRR.Release")
+				})
+			base += len(byFn[g])
+		}
+		if base == 0 {
+			partition(c, fn, "BalanceRR.Update", 0, nil, nil, nil)
+		}
+		// kept element removed from the pending-config map, matched on address and port
+		for _, kp := range keeps {
+			k := kp.call
+			g := k.Parent()
+			loops := core.Loops(g)
+			l := rLoopOf(loops, k.Block())
+			boundary := func(x ssa.Instruction) bool {
+				return core.IsReturn(x) || (l != nil && len(l.Header.Instrs) > 0 && x == l.Header.Instrs[0])
+			}
+			isDel := func(x ssa.Instruction) bool {
+				ci, ok := x.(*ssa.Call)
 				if !ok {
 					return false
 				}
-				for _, a := range appendedElems(call) {
-					if a == e {
-						keepCalls = append(keepCalls, call)
-						return true
-					}
-				}
-				return false
-			},
-			func(in ssa.Instruction, e ssa.Value) bool {
-				ci, ok := in.(ssa.CallInstruction)
-				return ok && core.CallIs(ci.Common(), slb+".BackendRR.Release") && ci.Common().Args[0] == e
-			})
-		// kept element removed from the pending-config map, matched on address and port
-		seen := map[*ssa.Call]bool{}
-		for _, k := range keepCalls {
-			if seen[k] {
-				continue
+				b, isB := ci.Call.Value.(*ssa.Builtin)
+				return isB && b.Name() == "delete"
 			}
-			seen[k] = true
 			del := false
-			for _, in := range allInstrs(fn) {
-				if ci, ok := in.(*ssa.Call); ok {
-					if b, isB := ci.Call.Value.(*ssa.Builtin); isB && b.Name() == "delete" && (ci.Block() == k.Block() || k.Block().Dominates(ci.Block()) || ci.Block().Dominates(k.Block())) {
-						// same guards
-						if strings.Join(core.GuardStrs(ci.Block()), "&") == strings.Join(core.GuardStrs(k.Block()), "&") {
-							del = true
-						}
-					}
+			for _, in := range allInstrs(g) {
+				if !isDel(in) {
+					continue
 				}
+				// executed whenever the element is kept: in the same block, or dominating the keep site under the same guards
+				if in.Block() == k.Block() || (core.Dominates(in, k) && rLoopOf(loops, in.Block()) == l && strings.Join(core.GuardStrs(in.Block()), "&") == strings.Join(core.GuardStrs(k.Block()), "&")) {
+					del = true
+				}
+			}
+			if !del && core.ReachAvoiding(g, k, isDel, boundary) == nil {
+				del = true // every way from the keep site to the end of the iteration deletes the entry
 			}
 			c.Check("kept-removed-from-pending", "BalanceRR.Update", k.Pos(), del, "a surviving backend is carried over but its entry stays in the pending-config map: it would be created a second time as a new backend")
-			match := core.HasGuard(k.Block(), func(g core.Guard) bool { return g.Pol && strings.Contains(g.Str, "BackendRR.MatchAddrPort(") })
-			found := core.HasGuard(k.Block(), func(g core.Guard) bool { return g.Pol && strings.HasSuffix(g.Str, "#1") && strings.Contains(g.Str, "[") })
+			match := rHolds(c.P, k.Block(), func(g core.Guard) bool {
+				call, ok := g.Cond.(*ssa.Call)
+				return ok && g.Pol && core.CallIs(&call.Call, slb+".BackendRR.MatchAddrPort") && len(call.Call.Args) > 0 && call.Call.Args[0] == kp.e
+			})
+			found := rHolds(c.P, k.Block(), func(g core.Guard) bool { return g.Pol && lookupOK(g.Cond) != nil })
 			c.Check("keep-guard", "BalanceRR.Update", k.Pos(), match && found, "a backend is carried over without having been found in the new config and matched on address and port")
 		}
 		// new elements are fresh objects
 		fresh := 0
-		for _, in := range allInstrs(fn) {
+		rg.instrs(func(in ssa.Instruction) {
 			call, ok := in.(*ssa.Call)
 			if !ok {
-				continue
+				return
 			}
 			for _, a := range appendedElems(call) {
 				if cl, isCall := a.(*ssa.Call); isCall && core.CallIs(&cl.Call, slb+".NewBackendRR") {
 					fresh++
 				}
 			}
-		}
-		c.Check("create-guard", "BalanceRR.Update:new", fn.Pos(), fresh == 1, fmt.Sprintf("expected one site appending a freshly created BackendRR for unmatched config entries, found %d", fresh))
-		checkPublish(c, fn, "BalanceRR.Update", "brr.backends", "brr.Mutex")
+		})
+		c.Check("create-guard", "BalanceRR.Update:new", fn.Pos(), fresh >= 1, fmt.Sprintf("expected a site appending a freshly created BackendRR for unmatched config entries, found %d", fresh))
+		checkPublish(c, rg, "BalanceRR.Update", fld, slb+".BalanceRR.Mutex")
 	}
 	// ---- BalanceGslb.Reload --------------------------------------------------------------------------
 	if fn := c.P.Func(gslb, "BalanceGslb.Reload"); fn == nil {
 		c.Missing(gslb + ".BalanceGslb.Reload")
+	} else if fld, ok := c.P.Obj(gslb, "BalanceGslb.subClusters").(*types.Var); !ok {
+		c.Missing(gslb + ".BalanceGslb.subClusters")
 	} else {
 		c.Analysed(core.FuncKey(fn))
-		var elems []ssa.Value
-		for _, in := range allInstrs(fn) {
-			if u, ok := in.(*ssa.UnOp); ok && u.Op == token.MUL {
-				if ia, ok := u.X.(*ssa.IndexAddr); ok && core.Render(ia.X) == "bal.subClusters" {
-					elems = append(elems, u)
-				}
+		rg := rNewRegion(c.P, fn)
+		byFn := oldElems(rg, fld)
+		base := 0
+		for _, g := range rg.fns {
+			elems := byFn[g]
+			if len(elems) == 0 {
+				continue
 			}
-		}
-		partition(c, fn, "BalanceGslb.Reload", elems,
-			func(in ssa.Instruction, e ssa.Value) bool {
-				call, ok := in.(*ssa.Call)
-				if !ok {
-					return false
-				}
-				for _, a := range appendedElems(call) {
-					if a == e {
-						return true
+			partition(c, g, "BalanceGslb.Reload", base, elems,
+				func(in ssa.Instruction, e ssa.Value) bool {
+					call, ok := in.(*ssa.Call)
+					if !ok {
+						return false
 					}
-				}
-				return false
-			},
-			func(in ssa.Instruction, e ssa.Value) bool {
-				ci, ok := in.(ssa.CallInstruction)
-				return ok && core.CallIs(ci.Common(), gslb+".SubCluster.release") && ci.Common().Args[0] == e
-			})
-		// every old name is recorded as existing; creation only for names not recorded
-		for i, e := range elems {
-			ei := e.(ssa.Instruction)
-			var hdr *ssa.BasicBlock
-			for _, l := range core.Loops(fn) {
-				if l.Body[ei.Block()] {
-					hdr = l.Header
-				}
+					for _, a := range appendedElems(call) {
+						if a == e {
+							return true
+						}
+					}
+					return false
+				},
+				func(in ssa.Instruction, e ssa.Value) bool {
+					ci, ok := in.(ssa.CallInstruction)
+					if !ok {
+						return false
+					}
+					if core.CallIs(ci.Common(), gslb+".SubCluster.release") {
+						return ci.Common().Args[0] == e
+					}
+					return rAlwaysOnParam(rg, ci, e, gslb+".SubCluster.release")
+				})
+			// every old name is recorded as existing; creation only for names not recorded
+			loops := core.Loops(g)
+			for i, e := range elems {
+				ei := e.(ssa.Instruction)
+				l := rLoopOf(loops, ei.Block())
+				bad := core.ReachAvoiding(g, ei, func(x ssa.Instruction) bool {
+					mu, ok := x.(*ssa.MapUpdate)
+					if !ok || fieldLoadOf(mu.Key, "Name") != e {
+						return false
+					}
+					k, isK := rBoolConst(mu.Value)
+					return isK && k
+				}, func(x ssa.Instruction) bool {
+					return core.IsReturn(x) || (l != nil && len(l.Header.Instrs) > 0 && x == l.Header.Instrs[0])
+				})
+				c.Check("create-guard", fmt.Sprintf("BalanceGslb.Reload:record#%d", base+i), ei.Pos(), bad == nil, "an existing sub-cluster is not unconditionally recorded as existing; it would be created again as a new sub-cluster (losing its backends' state)")
 			}
-			bad := core.ReachAvoiding(fn, ei, func(x ssa.Instruction) bool {
-				mu, ok := x.(*ssa.MapUpdate)
-				return ok && fieldLoadOf(mu.Key, "Name") == e && core.Render(mu.Value) == "true"
-			}, func(x ssa.Instruction) bool {
-				return core.IsReturn(x) || (hdr != nil && x == hdr.Instrs[0])
-			})
-			c.Check("create-guard", fmt.Sprintf("BalanceGslb.Reload:record#%d", i), ei.Pos(), bad == nil, "an existing sub-cluster is not unconditionally recorded as existing; it would be created again as a new sub-cluster (losing its backends' state)")
+			base += len(elems)
+		}
+		if base == 0 {
+			partition(c, fn, "BalanceGslb.Reload", 0, nil, nil, nil)
 		}
 		nNew := 0
-		for _, ci := range core.Calls(fn, gslb+".newSubCluster") {
+		for _, ci := range rg.calls(gslb + ".newSubCluster") {
 			nNew++
-			ok := core.HasGuard(ci.(ssa.Instruction).Block(), func(g core.Guard) bool {
-				return !g.Pol && strings.HasSuffix(g.Str, "#1") && strings.Contains(g.Str, "[")
-			})
+			ok := rHolds(c.P, ci.(ssa.Instruction).Block(), func(g core.Guard) bool { return !g.Pol && lookupOK(g.Cond) != nil })
 			c.Check("create-guard", fmt.Sprintf("BalanceGslb.Reload:new#%d", nNew), ci.Pos(), ok, "a new sub-cluster is created without the name having been found absent from the existing ones")
 		}
 		c.Min("create-guard", 3)
-		checkPublish(c, fn, "BalanceGslb.Reload", "bal.subClusters", "bal.lock")
+		checkPublish(c, rg, "BalanceGslb.Reload", fld, gslb+".BalanceGslb.lock")
 	}
 	// ---- BalTableReload -------------------------------------------------------------------------------------
 	if fn := c.P.Func(tbl, "BalTable.BalTableReload"); fn == nil {
 		c.Missing(tbl + ".BalTable.BalTableReload")
+	} else if fld, ok := c.P.Obj(tbl, "BalTable.balTable").(*types.Var); !ok {
+		c.Missing(tbl + ".BalTable.balTable")
 	} else {
 		c.Analysed(core.FuncKey(fn))
+		rg := rNewRegion(c.P, fn)
+		isTable := func(v ssa.Value) bool { return rFieldLoad(v, fld) != nil }
+		sameVal := func(a, b ssa.Value) bool {
+			a, b = core.StripConv(a), core.StripConv(b)
+			return a == b || (a.Parent() == b.Parent() && core.Render(a) == core.Render(b))
+		}
 		// old elements: lookups t.balTable[name] (comma-ok)
 		n := 0
-		for _, in := range allInstrs(fn) {
+		rg.instrs(func(in ssa.Instruction) {
 			lk, ok := in.(*ssa.Lookup)
-			if !ok || core.Render(lk.X) != "t.balTable" || !lk.CommaOk {
-				continue
+			if !ok || !isTable(lk.X) || !lk.CommaOk {
+				return
 			}
 			n++
+			g := in.Parent()
 			// the value flows into the new map on the found path; on that path delete(t.balTable, sameKey) must happen
 			okDel := false
-			for _, x := range allInstrs(fn) {
+			for _, x := range allInstrs(g) {
 				call, isCall := x.(*ssa.Call)
 				if !isCall {
 					continue
 				}
-				if b, isB := call.Call.Value.(*ssa.Builtin); isB && b.Name() == "delete" && core.Render(call.Call.Args[0]) == "t.balTable" && core.Render(call.Call.Args[1]) == core.Render(lk.Index) {
+				if b, isB := call.Call.Value.(*ssa.Builtin); isB && b.Name() == "delete" && isTable(call.Call.Args[0]) && sameVal(call.Call.Args[1], lk.Index) {
 					// executed exactly when found
-					if core.HasGuard(call.Block(), func(g core.Guard) bool {
-						ex, isEx := g.Cond.(*ssa.Extract)
-						return isEx && ex.Tuple == ssa.Value(lk) && ex.Index == 1 && g.Pol
-					}) {
+					if rHolds(c.P, call.Block(), func(g core.Guard) bool { return g.Pol && lookupOK(g.Cond) == lk }) {
 						okDel = true
 					}
 				}
@@ -296,42 +385,45 @@ func runC09(c *core.Ctx) {
 			c.Check("kept-removed-from-old", fmt.Sprintf("BalTableReload:lookup#%d", n), in.Pos(), okDel, "a balancer found in the old table is carried into the new table but not deleted from the old one before the release pass: it is released while still in service (and again on a later reload)")
 			// carried into the new map under the same key
 			carried := false
-			for _, x := range allInstrs(fn) {
-				if mu, isMU := x.(*ssa.MapUpdate); isMU && core.Render(mu.Key) == core.Render(lk.Index) && core.Render(mu.Map) != "t.balTable" {
+			for _, x := range allInstrs(g) {
+				if mu, isMU := x.(*ssa.MapUpdate); isMU && sameVal(mu.Key, lk.Index) && !isTable(mu.Map) {
 					carried = true
 				}
 			}
 			c.Check("partition", fmt.Sprintf("BalTableReload:carry#%d", n), in.Pos(), carried, "the balancer looked up in the old table is not stored into the replacement table")
-		}
+		})
 		if n == 0 {
 			c.Check("kept-removed-from-old", "BalTableReload:lookup", fn.Pos(), false, "no lookup of the old table found")
 		}
 		// release pass: range over t.balTable, Release on every element, unconditionally, after the carry loop and before publish
 		nRel := 0
-		for _, ci := range core.Calls(fn, gslb+".BalanceGslb.Release") {
+		isPublish := func(x ssa.Instruction) bool {
+			st, ok := x.(*ssa.Store)
+			return ok && rFieldAddr(st.Addr, fld) != nil
+		}
+		for _, ci := range rg.calls(gslb + ".BalanceGslb.Release") {
 			nRel++
 			in := ci.(ssa.Instruction)
-			recv := core.Render(ci.Common().Args[0])
-			fromOld := strings.Contains(recv, "next(range(t.balTable))")
-			var loopGuardsOnly = true
-			if len(core.SkipFilters(in.Block())) > 0 {
-				loopGuardsOnly = false
-			}
-			c.Check("release-pass", fmt.Sprintf("BalTableReload:release#%d", nRel), in.Pos(), fromOld && loopGuardsOnly,
-				"the release pass must release every balancer remaining in the old table unconditionally (receiver: "+recv+"; guards: "+strings.Join(core.GuardStrs(in.Block()), " && ")+")")
-			// publish after release
-			pub := false
-			for _, x := range allInstrs(fn) {
-				if st, ok := x.(*ssa.Store); ok && core.Render(st.Addr) == "t.balTable" && core.ReachAvoiding(fn, in, nil, func(y ssa.Instruction) bool { return y == x }) != nil {
-					pub = true
+			recv := ci.Common().Args[0]
+			fromOld := false
+			if ex, ok := core.StripConv(recv).(*ssa.Extract); ok && ex.Index == 2 {
+				if nx, ok := ex.Tuple.(*ssa.Next); ok {
+					if r, ok := nx.Iter.(*ssa.Range); ok && isTable(r.X) {
+						fromOld = true
+					}
 				}
 			}
+			loopGuardsOnly := len(core.SkipFilters(in.Block())) == 0
+			c.Check("release-pass", fmt.Sprintf("BalTableReload:release#%d", nRel), in.Pos(), fromOld && loopGuardsOnly,
+				"the release pass must release every balancer remaining in the old table unconditionally (receiver: "+core.Render(recv)+"; guards: "+strings.Join(core.GuardStrs(in.Block()), " && ")+")")
+			// publish after release
+			pub := core.ReachAvoiding(in.Parent(), in, nil, core.LiftMay(isPublish, 2)) != nil
 			c.Check("release-pass", fmt.Sprintf("BalTableReload:then-publish#%d", nRel), in.Pos(), pub, "the replacement table must be published after the release pass")
 		}
-		if nRel != 1 {
-			c.Check("release-pass", "BalTableReload:sites", fn.Pos(), false, fmt.Sprintf("expected exactly one release site, found %d", nRel))
+		if nRel < 1 {
+			c.Check("release-pass", "BalTableReload:sites", fn.Pos(), false, fmt.Sprintf("expected a release site for the balancers left in the old table, found %d", nRel))
 		}
-		checkPublish(c, fn, "BalTableReload", "t.balTable", "t.lock")
+		checkPublish(c, rg, "BalTableReload", fld, tbl+".BalTable.lock")
 	}
 	// ---- backend lists of every sub-cluster follow the cluster table -----------------------------
 	// BackendReload / BackendInit hand the new backend list to every sub-cluster named in the
@@ -345,19 +437,31 @@ func runC09(c *core.Ctx) {
 			continue
 		}
 		c.Analysed(core.FuncKey(fn))
-		calls := core.Calls(fn, spec.callee)
-		if len(calls) != 1 {
-			c.Check("update-all", spec.fn, fn.Pos(), false, fmt.Sprintf("expected one call of %s, found %d", spec.callee, len(calls)))
+		rg := rNewRegion(c.P, fn)
+		calls := rg.calls(spec.callee)
+		if len(calls) == 0 {
+			c.Check("update-all", spec.fn, fn.Pos(), false, fmt.Sprintf("expected a call of %s, found none", spec.callee))
 			continue
 		}
-		var extra []string
-		for _, g := range core.SkipFilters(calls[0].(ssa.Instruction).Block()) {
-			if g.Pol && strings.HasSuffix(g.Str, "#1") && strings.Contains(g.Str, "clusterBackend[") {
-				continue
+		for _, call := range calls {
+			var extra []string
+			for _, g := range core.SkipFilters(call.(ssa.Instruction).Block()) {
+				// the lookup hit in the cluster table handed in by the caller
+				if lk := lookupOK(g.Cond); lk != nil && g.Pol && len(rg.origins(lk.X)) > 0 {
+					fromParam := true
+					for _, o := range rg.origins(lk.X) {
+						if p := rParamOf(o); p == nil || p.Parent() != fn {
+							fromParam = false
+						}
+					}
+					if fromParam {
+						continue
+					}
+				}
+				extra = append(extra, g.Str)
 			}
-			extra = append(extra, g.Str)
+			c.Check("update-all", spec.fn, call.Pos(), len(extra) == 0, spec.fn+" skips sub-clusters under "+strings.Join(extra, " && ")+": their removed backends are never released and new ones never installed")
 		}
-		c.Check("update-all", spec.fn, calls[0].Pos(), len(extra) == 0, spec.fn+" skips sub-clusters under "+strings.Join(extra, " && ")+": their removed backends are never released and new ones never installed")
 	}
 	// ---- release chain census ------------------------------------------------------------------------------------
 	chain := map[string][]string{
@@ -374,18 +478,37 @@ func runC09(c *core.Ctx) {
 	}
 	sort.Strings(keys)
 	all := c.P.SrcFuncs("")
-	for _, callee := range keys {
-		allowed := map[string]bool{}
-		for _, a := range chain[callee] {
-			allowed[a] = true
+	// a private helper (or closure) of an allowed caller is part of that caller
+	ownerOf := map[string]map[*ssa.Function]bool{}
+	owner := func(key string) map[*ssa.Function]bool {
+		if m, ok := ownerOf[key]; ok {
+			return m
 		}
+		m := map[*ssa.Function]bool{}
+		i := strings.LastIndex(key, ".")
+		j := strings.LastIndex(key[:i], ".")
+		if root := c.P.Func(key[:j], key[j+1:]); root != nil {
+			for _, g := range c.P.Region(root) {
+				m[g] = true
+			}
+		}
+		ownerOf[key] = m
+		return m
+	}
+	for _, callee := range keys {
 		n := 0
 		for _, f := range all {
 			if len(core.Calls(f, callee)) == 0 {
 				continue
 			}
 			n++
-			c.Check("release-chain", callee+"<-"+core.FuncKey(f), f.Pos(), allowed[core.FuncKey(f)], core.FuncKey(f)+" calls "+callee+"; only "+strings.Join(chain[callee], ", ")+" may release (a release outside the reload partition closes a health-check channel that a later reload closes again)")
+			ok := false
+			for _, a := range chain[callee] {
+				if a == core.FuncKey(f) || owner(a)[f] {
+					ok = true
+				}
+			}
+			c.Check("release-chain", callee+"<-"+core.FuncKey(f), f.Pos(), ok, core.FuncKey(f)+" calls "+callee+"; only "+strings.Join(chain[callee], ", ")+" may release (a release outside the reload partition closes a health-check channel that a later reload closes again)")
 		}
 		if n == 0 {
 			c.Check("release-chain", callee+"<-none", token.NoPos, false, callee+" is never called: removed targets are no longer released")
@@ -399,13 +522,12 @@ func runC09(c *core.Ctx) {
 			c.Missing(spec.pkg + "." + spec.fn)
 			continue
 		}
-		ok := false
-		for _, ci := range core.Calls(fn, spec.callee) {
-			loopOnly := true
+		calls := c.P.RegionCalls(fn, spec.callee)
+		ok := len(calls) > 0
+		for _, ci := range calls {
 			if len(core.SkipFilters(ci.(ssa.Instruction).Block())) > 0 {
-				loopOnly = false
+				ok = false
 			}
-			ok = loopOnly
 		}
 		c.Check("release-all", spec.fn, fn.Pos(), ok, spec.fn+" must release every element of its list unconditionally")
 	}
@@ -477,29 +599,26 @@ func runC09(c *core.Ctx) {
 	_ = types.Universe
 }
 
-// checkPublish: the replacement container is stored into field on every path
-// from entry to a success return, with the lock held.
-func checkPublish(c *core.Ctx, fn *ssa.Function, name, field, lock string) {
-	ls := core.ComputeLockSets(fn)
+// checkPublish: the replacement container is stored into the field fld on
+// every path from entry to a success return, with the lock (type-based key)
+// held; the store may sit in a private helper of the region.
+func checkPublish(c *core.Ctx, rg *rRegion, name string, fld *types.Var, lock string) {
+	fn := rg.root
+	isStore := func(x ssa.Instruction) bool {
+		st, ok := x.(*ssa.Store)
+		return ok && rFieldAddr(st.Addr, fld) != nil
+	}
 	var stores []ssa.Instruction
-	for _, in := range allInstrs(fn) {
-		if st, ok := in.(*ssa.Store); ok && core.Render(st.Addr) == field {
+	rg.instrs(func(in ssa.Instruction) {
+		if isStore(in) {
 			stores = append(stores, in)
 		}
-	}
+	})
 	if len(stores) == 0 {
-		c.Check("publish", name, fn.Pos(), false, "the replacement container is never stored into "+field)
+		c.Check("publish", name, fn.Pos(), false, "the replacement container is never stored into "+fld.Name())
 		return
 	}
-	isStore := func(x ssa.Instruction) bool {
-		for _, s := range stores {
-			if x == s {
-				return true
-			}
-		}
-		return false
-	}
-	bad := core.ReachAvoiding(fn, nil, isStore, func(x ssa.Instruction) bool {
+	bad := core.ReachAvoiding(fn, nil, core.LiftMust(isStore, 2), func(x ssa.Instruction) bool {
 		r, ok := x.(*ssa.Return)
 		if !ok {
 			return false
@@ -507,11 +626,31 @@ func checkPublish(c *core.Ctx, fn *ssa.Function, name, field, lock string) {
 		rv := core.RetVals(r)
 		return len(rv) == 0 || isNilConst(rv[len(rv)-1]) || !errKnownNonNil(rv[len(rv)-1], r.Block())
 	})
+	sets := map[*ssa.Function]*core.LockSets{}
+	var held func(in ssa.Instruction, d int) bool
+	held = func(in ssa.Instruction, d int) bool {
+		f := in.Parent()
+		if sets[f] == nil {
+			sets[f] = core.ComputeLockSetsT(f)
+		}
+		if sets[f].Holds(in, lock, "W") {
+			return true
+		}
+		if f == fn || d <= 0 || len(rg.sites[f]) == 0 {
+			return false
+		}
+		for _, s := range rg.sites[f] {
+			if _, plain := s.(*ssa.Call); !plain || !held(s, d-1) {
+				return false
+			}
+		}
+		return true
+	}
 	locked := true
 	for _, s := range stores {
-		if !ls.Holds(s, lock, "W") {
+		if !held(s, 3) {
 			locked = false
 		}
 	}
-	c.Check("publish", name, stores[0].Pos(), bad == nil && locked, fmt.Sprintf("%s must be assigned the replacement container on every path to a success return (missing on some path: %v) while holding %s (held: %v)", field, bad != nil, lock, locked))
+	c.Check("publish", name, stores[0].Pos(), bad == nil && locked, fmt.Sprintf("%s must be assigned the replacement container on every path to a success return (missing on some path: %v) while holding %s (held: %v)", fld.Name(), bad != nil, lock, locked))
 }
